@@ -22,8 +22,11 @@ package services
 import (
 	"context"
 	"errors"
+	"fmt"
 	"strings"
+	"unicode/utf8"
 
+	"entgo.io/ent/dialect/sql"
 	"google.golang.org/grpc"
 
 	"github.com/grpc-ecosystem/grpc-gateway/v2/runtime"
@@ -44,6 +47,19 @@ func projectSubscriptionPrefix(project string) string {
 
 func projectSnapshotPrefix(project string) string {
 	return project + "/snapshots/"
+}
+
+// exactNamePrefix matches rows whose name column starts with exactly the given
+// prefix. The ent HasPrefix predicates become LIKE, which is case-insensitive
+// on SQLite, so this is applied on top of them to keep e.g. projects/p and
+// projects/P apart on every backend.
+func exactNamePrefix(column, prefix string) func(*sql.Selector) {
+	return func(s *sql.Selector) {
+		s.Where(sql.ExprP(
+			fmt.Sprintf("substr(%s, 1, %d) = ?", s.C(column), utf8.RuneCountInString(prefix)),
+			prefix,
+		))
+	}
 }
 
 func isValidTopicName(name string) bool {
